@@ -376,7 +376,11 @@ func (se *session) doOp(o op) bool {
 		sd.closed = true
 		se.emit(map[string]any{"ev": "Close", "x": o.X, "err": hlib.ErrStr(err)})
 	case "M":
-		ev := map[string]any{"ev": "Mutate", "x": o.X, "i": o.I, "kind": o.Kind, "where": o.Where, "at": -1, "old": -1, "new": -1, "len0": -1, "len1": -1, "did": false}
+		// nxt: the byte that follows the record in the stream (first byte of the next record in flight), -1 if none
+		ev := map[string]any{"ev": "Mutate", "x": o.X, "i": o.I, "kind": o.Kind, "where": o.Where, "at": -1, "old": -1, "new": -1, "nxt": -1, "len0": -1, "len1": -1, "did": false}
+		if o.I >= 1 && o.I < len(sd.pend) && len(sd.pend[o.I].raw) > 0 {
+			ev["nxt"] = int(sd.pend[o.I].raw[0])
+		}
 		if o.I >= 1 && o.I <= len(sd.pend) && !sd.cut {
 			r := &sd.pend[o.I-1]
 			ev["len0"] = len(r.raw)
@@ -437,10 +441,11 @@ func (se *session) read(x string, k int, to time.Duration) (int, error) {
 	sd.tr.SetReadDeadline(time.Now().Add(to))
 	m, err := sd.rw.Read(buf)
 	sd.tr.SetReadDeadline(time.Time{})
-	if m < 0 || m > k {
-		m = 0
+	got := m // logged as returned; only the slice bound is guarded
+	if got < 0 || got > k {
+		got = 0
 	}
-	se.emit(map[string]any{"ev": "Read", "x": x, "k": k, "m": m, "data": rle(buf[:m]), "err": hlib.ErrStr(err)})
+	se.emit(map[string]any{"ev": "Read", "x": x, "k": k, "m": m, "data": rle(buf[:got]), "err": hlib.ErrStr(err)})
 	return m, err
 }
 
